@@ -113,3 +113,40 @@ Example C11_example :
     spec_metas None [meta_doc 0 ex_m2; chunk_doc 0 d1; chunk_doc 0 d2]
       = [Some (meta_doc 0 ex_m2); Some (meta_doc 0 ex_m2)].
 Proof. exact meta_example. Qed.
+
+(* ------------------------------------------------------------------ oracle soundness, read side *)
+(* The run-time check evaluates [c11_chunks_ok], [c11_chunks_pos_ok], [c11_samples_ok] and
+   [c11_perchunk_ok] (Model/MetaOk.v) on what the Go reader and its four iterator views reported
+   for a stream.  They accept what the MODEL's reader reports for the same outer documents - every
+   sequence of outer documents, any zlib.  Observations as ocaml/c11_run.ml builds them:
+   GetMetadata() of every delivered chunk = [map ck_meta cs]; Size() of every delivered chunk =
+   [map ck_npoints cs]; Metadata() after every Next() of an iterator = [map fst] of the model's
+   items; the number of delivered chunks = [length cs].  (Emit side: C11_emit's second conjunct.) *)
+From FV.Proofs Require Import OracleC11.
+
+Section C11_oracle.
+Variable inflate : bytes -> option bytes.
+
+Theorem C11_oracle_chunks_sound : forall ds,
+  let cs := fst (read_chunks inflate None ds) in
+  c11_chunks_ok ds (map ck_meta cs) = true /\ c11_chunks_pos_ok ds (map ck_meta cs) = true.
+Proof. exact (c11_chunks_oracle_sound inflate). Qed.
+
+(* ReadStructuredMetrics and ReadMetrics: one item per sample *)
+Theorem C11_oracle_samples_sound : forall ds,
+  let cs := fst (read_chunks inflate None ds) in
+  c11_samples_ok ds (map ck_npoints cs) (map fst (structured_items cs)) = true /\
+  c11_samples_ok ds (map ck_npoints cs) (map fst (flat_items cs)) = true.
+Proof. exact (c11_samples_oracle_sound inflate). Qed.
+
+(* ReadSeries and ReadMatrix: one item per chunk *)
+Theorem C11_oracle_perchunk_sound : forall ds,
+  let cs := fst (read_chunks inflate None ds) in
+  c11_perchunk_ok ds (length cs) (map fst (series_items cs)) = true /\
+  c11_perchunk_ok ds (length cs) (map fst (matrix_items cs)) = true.
+Proof. exact (c11_perchunk_oracle_sound inflate). Qed.
+
+End C11_oracle.
+Print Assumptions C11_oracle_chunks_sound.
+Print Assumptions C11_oracle_samples_sound.
+Print Assumptions C11_oracle_perchunk_sound.
